@@ -2,6 +2,7 @@ package harness
 
 import (
 	"fmt"
+	"reflect"
 	"sort"
 	"strings"
 	"time"
@@ -95,12 +96,19 @@ var regModel = porcupine.Model{
 	},
 }
 
+const builtinID = 777
+
 func asInt(v interface{}) (int, string) {
 	switch x := v.(type) {
 	case nil:
 		return 0, ""
 	case int:
 		return x, ""
+	}
+	if rv := reflect.ValueOf(v); rv.Kind() == reflect.Func {
+		if want := reflect.ValueOf(plush.Helpers.All()["len"]); want.IsValid() && rv.Pointer() == want.Pointer() {
+			return builtinID, "" // the built-in len helper, injected at construction
+		}
 	}
 	return -1, fmt.Sprintf("%T(%v)", v, v)
 }
@@ -117,7 +125,7 @@ func c14CtxRun(t *rapid.T) {
 			ntasks = 2 + ntasks%7
 		}
 	}
-	keys := []string{"a", "b", "c"}[:rapid.IntRange(1, 3).Draw(t, "nkeys")]
+	keys := [][]string{{"a"}, {"a", "b"}, {"a", "b", "c"}, {"len"}, {"a", "len"}}[uni(t, "keyset", 5)]
 	maxOps := 12
 	budget := 48
 	if ntasks > 8 {
@@ -130,6 +138,10 @@ func c14CtxRun(t *rapid.T) {
 	init := map[string]int{}
 	rootData := map[string]interface{}{}
 	for _, k := range keys {
+		if k == "len" {
+			init[k] = builtinID // every root context gets the built-in at construction
+			continue
+		}
 		if rapid.Bool().Draw(t, "init_"+k) {
 			init[k] = 900 + len(init)
 			rootData[k] = init[k]
@@ -340,4 +352,167 @@ func c14CtxRun(t *rapid.T) {
 type keyed struct {
 	key string
 	in  regIn
+}
+
+// c14ChainRun — scenario S5: a chain root → mid → leaf shared by all tasks,
+// with Set/Value/Has/New on any level. A value read through the chain is
+// legitimately a multi-step lookup, so no linearizability is demanded here;
+// the oracles are the race detector, deadlock / step budget (lock-order
+// inversions between levels), and two sanity conditions that hold for every
+// interleaving: every value read was written to that key somewhere on the
+// reader's chain (or is the initial one), and after all tasks finished each
+// level's own binding is the initial one or one written to that level.
+func c14ChainRun(t *rapid.T) {
+	ntasks := 2 + uni(t, "tasks", 5)
+	keys := [][]string{{"a"}, {"a", "b"}, {"len"}, {"a", "len"}}[uni(t, "keyset", 4)]
+	mp := drawMapOrder(t)
+	root := plush.NewContext()
+	mid := root.New().(*plush.Context)
+	leaf := mid.New().(*plush.Context)
+	levels := []*plush.Context{root, mid, leaf}
+	names := []string{"root", "mid", "leaf"}
+
+	type op struct {
+		level, kind int // kind 0 Set 1 Value 2 Has 3 New+Value
+		key         string
+		val         int
+	}
+	plan := make([][]op, ntasks)
+	written := map[string]map[int]map[int]bool{} // key -> level -> values written there
+	for _, k := range keys {
+		written[k] = map[int]map[int]bool{0: {}, 1: {}, 2: {}}
+	}
+	total := 0
+	for i := range plan {
+		n := 1 + uni(t, "nops", 10)
+		for j := 0; j < n && total < 60; j++ {
+			total++
+			o := op{level: uni(t, "level", 3), key: keys[uni(t, "key", len(keys))]}
+			switch uni(t, "kind", 8) {
+			case 0, 1, 2:
+				o.kind, o.val = 0, (i+1)*1000+j+1
+				written[o.key][o.level][o.val] = true
+			case 3, 4:
+				o.kind = 1
+			case 5:
+				o.kind = 2
+			default:
+				o.kind = 3
+			}
+			plan[i] = append(plan[i], o)
+		}
+	}
+	opts := drawSched(t, total*6+ntasks)
+	opts.KeepTrace = true
+	sim := simrt.NewSim(rapidChooser{t}, opts)
+	type obs struct {
+		o   op
+		val int
+		has bool
+		bad string
+	}
+	seenVals := make([][]obs, ntasks)
+	for i := range plan {
+		i := i
+		sim.Go(fmt.Sprintf("T%d", i), func() {
+			for _, o := range plan[i] {
+				c := levels[o.level]
+				r := obs{o: o}
+				switch o.kind {
+				case 0:
+					c.Set(o.key, o.val)
+				case 1:
+					r.val, r.bad = asInt(c.Value(o.key))
+				case 2:
+					r.has = c.Has(o.key)
+				default:
+					r.val, r.bad = asInt(c.New().Value(o.key))
+				}
+				seenVals[i] = append(seenVals[i], r)
+			}
+		})
+	}
+	mark := raceBegin()
+	err := sim.Run()
+	races, raceText := raceEnd(mark)
+	details := func(msg string) func() map[string]interface{} {
+		return func() map[string]interface{} {
+			var ps []string
+			for i, p := range plan {
+				var s []string
+				for _, o := range p {
+					s = append(s, fmt.Sprintf("%s.%s(%s,%d)", names[o.level], [...]string{"Set", "Value", "Has", "New().Value"}[o.kind], o.key, o.val))
+				}
+				ps = append(ps, fmt.Sprintf("T%d: %s", i, strings.Join(s, "; ")))
+			}
+			var sched []string
+			for _, st := range sim.Trace {
+				sched = append(sched, fmt.Sprintf("T%d@%s", st.Task, st.Site))
+			}
+			return map[string]interface{}{"scenario": "S5 shared chain root-mid-leaf", "plan": ps, "policy": opts.Policy.String(),
+				"map_order": mp.String(), "schedule": sched, "message": msg, "race_report": raceText, "race_pairs": racePairs(raceText)}
+		}
+	}
+	count("c14_s5_runs", 1)
+	count("sched_steps", int64(sim.Steps))
+	count("sched_switches", int64(sim.Switches))
+	count("sched_contentions", int64(sim.Contentions))
+	count("policy_"+opts.Policy.String(), 1)
+	if sim.Switches > 0 {
+		seen("c14", sim.Sig)
+	}
+	if err != nil {
+		switch err.(type) {
+		case *simrt.Deadlock:
+			violate(t, "C14", "no-deadlock", "deadlock:s5", details(err.Error()))
+		case *simrt.StepLimit:
+			violate(t, "C14", "terminates-within-step-budget", "steplimit:s5", details(err.Error()))
+		default:
+			violate(t, "C14", "no-panic", "panic:s5", details(err.Error()))
+		}
+		return
+	}
+	if races > 0 {
+		violate(t, "C14", "race-free", "race:"+strings.Join(racePairs(raceText), " ; "), details(fmt.Sprintf("%d data race report(s) from the Go race detector", races)))
+		return
+	}
+	initial := func(k string) int {
+		if k == "len" {
+			return builtinID
+		}
+		return 0
+	}
+	okOnChain := func(k string, level, v int) bool {
+		if v == initial(k) {
+			return true
+		}
+		for l := level; l >= 0; l-- {
+			if written[k][l][v] {
+				return true
+			}
+		}
+		return false
+	}
+	for i := range seenVals {
+		for _, r := range seenVals[i] {
+			if r.bad != "" {
+				violate(t, "C14", "reads-return-written-values", "badvalue:s5", details(r.bad))
+				return
+			}
+			if (r.o.kind == 1 || r.o.kind == 3) && !okOnChain(r.o.key, r.o.level, r.val) {
+				violate(t, "C14", "reads-return-values-written-on-the-chain", "foreignvalue:s5", details(fmt.Sprintf("T%d read %d for %s on %s: never written to that key on its chain", i, r.val, r.o.key, names[r.o.level])))
+				return
+			}
+		}
+	}
+	// a Set on one level never changes what its ancestors observe
+	for _, k := range keys {
+		for l := range levels {
+			v, bad := asInt(levels[l].Value(k))
+			if bad != "" || !okOnChain(k, l, v) {
+				violate(t, "C14", "final-state-is-a-written-value", "badfinal:s5", details(fmt.Sprintf("final %s.Value(%s) = %d %s", names[l], k, v, bad)))
+				return
+			}
+		}
+	}
 }
